@@ -188,8 +188,9 @@ fn check_entry(name: &str, attr: u8, cluster: u32, size: u32, ct: (u32, u32, u32
 
 // ---- names ---------------------------------------------------------------------------
 
-pub const CLASSES: [char; 20] = [
-    'a', 'Z', '7', '.', ' ', '"', '*', '+', ',', '/', ':', ';', '<', '=', '>', '?', '\u{0007}', '\u{00E9}', '\u{0100}', '~',
+// (U+00C3 followed by U+00A9 is, as two ISO-8859-1 bytes, also the UTF-8 encoding of U+00E9)
+pub const CLASSES: [char; 22] = [
+    'a', 'Z', '7', '.', ' ', '"', '*', '+', ',', '/', ':', ';', '<', '=', '>', '?', '\u{0007}', '\u{00E9}', '\u{0100}', '~', '\u{00C3}', '\u{00A9}',
 ];
 pub const MORE_FORBIDDEN: [char; 4] = ['[', '\\', ']', '|'];
 
